@@ -24,7 +24,10 @@ MANIFEST = {
              "requests / initialTxns, chains with creations, spends, later and same-block double spends, "
              "create-and-spend in one block, several requested outputs - of one transaction and of different ones - "
              "paying to ONE script (address re-use: the watch list holds the same script for several outpoints and "
-             "blocks match that only create / spend another output with that script), best height growing during "
+             "blocks match that only create / spend another output with that script; watch-list turnover: a block "
+             "that resolves one request and starts another with a different script, the later spend in a block that "
+             "is fetched only if its true filter matches the current watch list; requested outputs of the block's "
+             "coinbase / a middle / the last transaction at first / last index), best height growing during "
              "the scan, per-request answer bags) over every "
              "interleaving of Enqueue (same outpoint twice, two outputs of one tx, out-of-range index, start below / "
              "at / above the running scan and above the tip), block arrival, a failing answer at every environment "
@@ -35,7 +38,7 @@ MANIFEST = {
              "recorded at its critical sections, linearised and checked to be paths of the TLC state graph. "
              "AnswerIsFate / AnsweredAtMostOnce / NoCallerLeftWaiting(+AboveTip) of UtxoScanProps.tla are evaluated "
              "by TLC on what the callers of the real scanner got, after every step.",
-        note="Bounded: 3-5 heights, <=3 requests, <=2 failing environment answers per history, chains from a fixed "
+        note="Bounded: 2-6 heights, <=3 requests, <=2 failing environment answers per history, chains from a fixed "
              "catalogue plus one seeded random chain. One model action = one environment answer plus the code up to "
              "the next environment call (equivalence argued in notes/utxoscan.md and checked by the free-running "
              "executions). Callers are read through Result() after every step; caller-side cancel channels, reorgs "
@@ -79,12 +82,17 @@ ASSUMPTIONS = [
 # --------------------------------------------------------------------------
 # chains and request catalogues (single source of truth: TLC constant, driver input, Props observable)
 # --------------------------------------------------------------------------
-def tx(i, nout, *ins, scr=None):
+def tx(i, nout, *ins, scr=None, cb=False):
     """scr: script id of every output (default: a script of its own per output, id*10 + index); outputs
-    with the same id pay to the same script (address re-use)."""
+    with the same id pay to the same script (address re-use).  cb: the transaction is the COINBASE of its
+    block (first of block.Transactions, null-outpoint input; first of the block description, no ins)."""
     scr = list(scr) if scr is not None else [i * 10 + k for k in range(nout)]
     assert len(scr) == nout and all(x > 0 for x in scr)
-    return {"id": i, "nout": nout, "ins": [list(x) for x in ins], "scr": scr}
+    d = {"id": i, "nout": nout, "ins": [list(x) for x in ins], "scr": scr}
+    if cb:
+        assert not ins
+        d["cb"] = 1
+    return d
 
 
 # tx ids: 1 = A (two outputs), 2 = B, >= 3 spenders; 9 = a transaction that is not in the chain
@@ -140,6 +148,44 @@ CHR2 = [  # 4 heights: the shared script across transactions of different blocks
 CATR2 = [(1, 0, 1), (1, 1, 1), (2, 0, 2), (2, 1, 2), (2, 1, 1), (2, 1, 3), (2, 0, 1)]
 
 
+# watch-list turnover: requests RESOLVE (spend found) and START in the same block / in adjacent blocks, every
+# output with a script of its own, so the watch list after the turnover shares no script with the one before
+# it; the spends that follow lie in blocks in which no request starts, so those blocks are fetched only if the
+# block's TRUE filter matches the watch list the scanner hands to BlockFilterMatches at that height
+CHT = [  # 5 heights
+    [tx(1, 2)],                                   # h1 creates A:0, A:1
+    [tx(5, 1, (9, 0))],                           # h2 nothing that is watched (filter queried with A's scripts)
+    [tx(2, 2), tx(3, 1, (1, 0))],                 # h3 creates B:0, B:1 AND spends A:0 (one leaves, others start)
+    [tx(4, 1, (9, 1), (2, 0))],                   # h4 spends B:0 (input 1), nothing else, nobody's start block
+    [tx(6, 1, (1, 1))],                           # h5 spends A:1, nothing else; B:1 is never spent
+]
+# A:0@1 / A:1@1 watched from h1; B:0@3, B:1@3 start in the block that resolves A:0; B:0@4 starts in the block
+# AFTER the one that resolves A:0 (its own spending block); A:0@2 starts in a block that does not create it
+CATT = [(1, 0, 1), (2, 0, 3), (1, 1, 1), (2, 1, 3), (2, 0, 4), (1, 0, 2), (2, 1, 4)]
+# the same with THREE generations (A resolves where B starts, B resolves where C starts, C spent after that)
+# and a block between the turnovers in which nothing happens
+CHT3 = [  # 6 heights
+    [tx(1, 1)],                                   # h1 creates A:0
+    [tx(7, 1, (9, 0))],                           # h2 nothing watched
+    [tx(2, 1), tx(4, 1, (1, 0))],                 # h3 creates B:0, spends A:0
+    [tx(3, 2), tx(5, 1, (9, 1), (2, 0))],         # h4 creates C:0, C:1, spends B:0 (input 1)
+    [tx(8, 1, (9, 2))],                           # h5 nothing watched
+    [tx(6, 1, (3, 1))],                           # h6 spends C:1; C:0 is never spent
+]
+CATT3 = [(1, 0, 1), (2, 0, 3), (3, 1, 4), (3, 0, 4), (2, 0, 1), (3, 1, 5)]
+
+
+# position classes of the requested output: (transaction FIRST in its block = the coinbase / in the middle /
+# last) x (output index 0 / middle / last); for every class one output that is never spent (the answer is
+# the output found in the start block) and, for the coinbase, also outputs spent later
+CHP = [  # 3 heights
+    [tx(1, 2, cb=True), tx(2, 3), tx(3, 2)],      # h1: coinbase A (2 outputs), B (3 outputs), C (2 outputs)
+    [tx(4, 2, cb=True), tx(5, 1, (1, 1), (2, 1))],  # h2: coinbase D (2 outputs); spends A:1 (input 0), B:1 (input 1)
+    [tx(6, 1, (9, 0), (4, 0))],                   # h3: spends D:0 (input 1); A:0, B:0, B:2, C:0, C:1, D:1 never spent
+]
+CATP = [(1, 0, 1), (1, 1, 1), (2, 0, 1), (2, 2, 1), (3, 0, 1), (3, 1, 1), (4, 1, 2), (4, 0, 2), (2, 1, 1), (1, 2, 1)]
+
+
 # Stop with a scan in flight (slice of C17): long stretches of heights whose filters do not match what is
 # watched (the normal case of a spend check), a matching height in the middle, the output spent / not spent
 CHL = [  # 8 heights
@@ -171,8 +217,8 @@ def tla_chain(ch):
     def t(x):
         ins = ", ".join("<<%d, %d>>" % (a, b) for a, b in x["ins"])
         scr = x.get("scr") or [x["id"] * 10 + k for k in range(x["nout"])]
-        return "[id |-> %d, nout |-> %d, ins |-> <<%s>>, scr |-> <<%s>>]" % (
-            x["id"], x["nout"], ins, ", ".join(str(v) for v in scr))
+        return "[id |-> %d, nout |-> %d, ins |-> <<%s>>, scr |-> <<%s>>, cb |-> %d]" % (
+            x["id"], x["nout"], ins, ", ".join(str(v) for v in scr), 1 if x.get("cb") else 0)
     return "<<" + ", ".join("<<" + ", ".join(t(x) for x in blk) + ">>" for blk in ch) + ">>"
 
 
@@ -251,6 +297,21 @@ def config(tier, seed):
                 # (in a block that spends nothing else), one never; a block in between matches the watch
                 # list only because it creates one more output with that script
                 dict(name="qr", chains=[CHR], cat=CATR[:5], best0s="{3, 4}", MaxReq=2, MaxFail=0,
+                     AllowStop=False, FalsePos=False, free=500),
+                # watch-list turnover: one request resolves in the block in which another starts (or in the
+                # block before it), all scripts different; the later spend lies in a block that is fetched
+                # only if its true filter matches the CURRENT watch list
+                # (qt: best0 = 3 - the turnover block is the last of the first pass, the blocks with the later
+                # spends arrive during the scan; qt3: three generations A -> B -> C in one batch of three)
+                dict(name="qt", chains=[CHT], cat=CATT, best0s="{3, 5}", MaxReq=2, MaxFail=0,
+                     AllowStop=False, FalsePos=False, free=500),
+                dict(name="qt3", chains=[CHT3], cat=CATT3[:5], best0s="{6}", MaxReq=3, MaxFail=0,
+                     AllowStop=False, FalsePos=False, free=500),
+                # position classes: outputs of the block's coinbase / a middle / the last transaction, first /
+                # last output index, never spent and spent later
+                # (also the spent middle output and an out-of-range index of the coinbase; block 3 may arrive
+                # during the scan)
+                dict(name="qp", chains=[CHP], cat=CATP, best0s="{2, 3}", MaxReq=2, MaxFail=0,
                      AllowStop=False, FalsePos=False, free=500)]
     rc, rcat = random_chain(rng, 4)
     return [
@@ -275,6 +336,16 @@ def config(tier, seed):
              AllowStop=False, FalsePos=False, free=3000),
         dict(name="tr2", chains=[CHR2], cat=CATR2, best0s="{2, 3, 4}", MaxReq=2, MaxFail=1,
              AllowStop=True, FalsePos=True, free=3000),
+        # watch-list turnover (see qt / qt3): with a failing / stale answer and false positives, the tip growing
+        # by up to two blocks; three generations with the full catalogue
+        dict(name="tt", chains=[CHT], cat=CATT, best0s="{3, 4, 5}", MaxReq=2, MaxFail=1,
+             AllowStop=False, FalsePos=True, free=2000),
+        dict(name="tt3", chains=[CHT3], cat=CATT3, best0s="{6}", MaxReq=3, MaxFail=0,
+             AllowStop=False, FalsePos=False, free=2000),
+        # position classes (see qp) with three requests sharing start blocks (the reverse index / early exit
+        # of findInitialTransactions with the coinbase among the requested transactions)
+        dict(name="tp3", chains=[CHP], cat=CATP[:8], best0s="{3}", MaxReq=3, MaxFail=0,
+             AllowStop=False, FalsePos=False, free=2000),
     ]
 
 
@@ -550,7 +621,7 @@ def run(prop_id, tier, seed, replay=None):
             if not chains:
                 raise core.MachineryError("replay file carries no chain table")
             gen = chains_module([[[dict(id=t["id"], nout=t["nout"], ins=[tuple(i) for i in t["ins"]],
-                                        scr=t.get("scr"))
+                                        scr=t.get("scr"), cb=t.get("cb", 0))
                                    for t in blk] for blk in ch] for ch in chains], os.path.join(sc, "gen-replay"))
             pf = os.path.join(sc, "paths.ndjson")
             family.paths_from_replay(replay, pf)
